@@ -68,6 +68,18 @@ def run(ctx):
         ctx.cov["states"] += res.get("states", 0)
         ctx.sample({"group": g, "adversarial_encodings_from_spec": [(c["k"], c["b"][:40] + "...") for c in cases[:4]], "n": len(cases)})
         strings = [unhx(c["b"]) for c in cases]
+        # a subgroup element whose canonical encoding starts with a zero byte, and the same without that byte / with one more
+        G = uni.group(g)
+        if g != "Ed25519":
+            e = G.Base
+            for k in range(1, 4000):
+                if e.to_bytes()[0] == 0:
+                    lz = e.to_bytes()
+                    strings += [lz, lz[1:], b"\x00" + lz, lz[1:] + b"\x00"]
+                    cases += [{"k": "element with a leading zero byte (k=%d)" % k, "b": hx(lz)}, {"k": "... leading zero stripped", "b": hx(lz[1:])},
+                              {"k": "... one more zero", "b": hx(b"\x00" + lz)}, {"k": "... zero moved to the end", "b": hx(lz[1:] + b"\x00")}]
+                    break
+                e = e.add(G.Base)
         t = Trace("adversarial-decode-" + g, uni)
         for c in cases:
             t.raw(dict(pure.ev_dec(uni, g, unhx(c["b"])), note=c["k"]))
